@@ -48,8 +48,27 @@ def stream_case(rng):
     return dict(c, steps=steps)
 
 
+def list_placeholder_case(rng):
+    """a `$required` list entry in a lower layer and every kind of upper-layer value for that key: only an upper
+    layer that actually supplies list entries satisfies it"""
+    base = {"args": ["$required"] + ([rng.choice(["x", 1])] if rng.random() < 0.3 else []), "name": "n"}
+    if rng.random() < 0.3:
+        base = {"svc": base}
+    upper_val = rng.choice([None, None, [], ["v"], "s", {"k": 1}, ["$required"], [None], "$delete", [{"$match": "$required", "$value": "v"}]])
+    upper = {"args": upper_val}
+    if "svc" in base:
+        upper = {"svc": upper}
+    layers = [base, upper]
+    if rng.random() < 0.3:
+        layers.insert(1, {"other": 1})
+    return chain_case(layers, env=gen.ENV)
+
+
 def gen_case(rng):
-    if rng.random() < 0.2:
+    r0 = rng.random()
+    if r0 < 0.06:
+        return list_placeholder_case(rng)
+    if r0 < 0.24:
         return stream_case(rng)
     base = gen.eval_doc(rng, W, depth=rng.randint(2, 3), nfeat=(0, 2))
     base = gen.with_required(rng, base, 0.12)
